@@ -5,4 +5,3 @@ NA['C27'] = 'Per-path status equality with git status over generated states is a
 NA['C28'] = 'Index/tree equality with git over operation sequences is a value property (the structural part, trees written only through the validated Tree.Encode, is C04).'
 NA['C45'] = 'Patch text applicability with git apply is a value property.'
 NA['C46'] = 'Line attribution over histories is a value property.'
-NA['C49'] = 'Matcher results over patterns x paths compared with git check-ignore are value properties.'
